@@ -37,6 +37,7 @@ func TestC17(t *testing.T) {
 		sendsToExisting := 0
 		recordedNonVesting := 0
 		otherDenomSeeds := 0
+		ownPools := 0
 		var recordedAbsent []sdk.AccAddress // recorded in the genesis file although no account exists there (yet)
 		// freshOrRecorded picks the recipient of a send / split: a never used address or, sometimes, an
 		// address the genesis file already records although it has no account - the operation's own
@@ -316,6 +317,21 @@ func TestC17(t *testing.T) {
 					order = append(order, to.String())
 				}
 			},
+			"vesting_account_opens_a_pool": func(t *rapid.T) {
+				// a vesting account of this history (recorded or not, genesis-derived or not) puts liquid coins of its own into
+				// a new pool: an ordinary, non-genesis pool - whatever lineage its owner has, accounts sent from it have none
+				if len(order) == 0 {
+					t.Skip("no vesting accounts")
+				}
+				a := mustAddr(order[rapid.IntRange(0, len(order)-1).Draw(t, "owner")])
+				name := fmt.Sprintf("own%d", len(pools))
+				res := v.Run(&vestingtypes.MsgCreateVestingPool{Owner: a.String(), Name: name, Amount: sdk.NewInt(int64(rapid.IntRange(1, 2000).Draw(t, "amt"))), Duration: time.Duration(yearNs), VestingType: []string{"vt0", "vt1"}[rapid.IntRange(0, 1).Draw(t, "vt")]})
+				note("vesting account %s opens pool %s ok=%v", a, name, res.OK())
+				if res.OK() {
+					pools = append(pools, poolRef{a, name, false})
+					ownPools++
+				}
+			},
 			"create_direct": func(t *rapid.T) {
 				to := v.NextFresh()
 				res := v.Run(&vestingtypes.MsgCreateVestingAccount{FromAddress: KeyAcc(3).Addr.String(), ToAddress: spell(t, to),
@@ -396,6 +412,9 @@ func TestC17(t *testing.T) {
 		}
 		if sentToRecorded > 0 {
 			cl = append(cl, "recipient_already_recorded_in_genesis")
+		}
+		if ownPools > 0 {
+			cl = append(cl, "pool_owned_by_a_vesting_account_of_the_history")
 		}
 		if otherDenomSeeds > 0 {
 			cl = append(cl, "recorded_account_vesting_other_denominations")
